@@ -136,9 +136,19 @@ class UpdimExt(Contract):
 
 
 def contracts():
-    return [Ext(1), Ext(2), Ext(3), UpdimExt(False), UpdimExt(True)]
+    from contracts import c08_edges
+    return [Ext(1), Ext(2), Ext(3), UpdimExt(False), UpdimExt(True)] + c08_edges.contracts()
 
 
-TRUSTED = ['pyvc symbolic executor; numpy.asarray/array/ones on small fixed-shape tuples', 'floats treated as reals (machine arithmetic as mathematical)']
-ASSUMPTIONS = ['n <= 3 is all the code implements (NotImplementedError beyond)']
-NOT_COVERED = ['gradients, Jacobians, divergence theorem, normalisation, TensorEdge orientation parity, lowering: calculus and array semantics are outside; this claim covers only the algebraic core of the normal']
+TRUSTED = ['pyvc symbolic executor; numpy.asarray/array/ones on small fixed-shape tuples', 'floats treated as reals (machine arithmetic as mathematical)',
+           'small-matrix numpy model of contracts/c08_edges.py (concrete shapes, exact entries; cross-checked in native/axioms_c08.py): asarray, zeros, ones, eye, concatenate(axis=0), '
+           'dot / @, .T, row / column / slice / index-list subscripts, a[None, :], scalar[newaxis, newaxis], 2-d slice stores, elementwise + - * with numpy broadcasting of '
+           '(n,m) with (m,), unary minus, numpy.linalg.det as the cofactor polynomial (order <= 3); integer shape tables (array of shapes, sum(0), cumsum(0)) by the real numpy',
+           'types.frozenarray / types.arraydata as identity; decorators cached_property / property / types.lru_cache transparent; objects of the transform / element classes are '
+           'RObj (contracts/c10_real.py): every method, property and constructor executed is the real body']
+ASSUMPTIONS = ['n <= 3 is all the code implements (NotImplementedError beyond)',
+               'class invariant of Updim used for the symbolic factor edge: linear is n x (n-1), offset has length n, isflipped is a bool, _affine = (linear, offset)',
+               'a Square factor is given by its linear part and offset; its isflipped is the real property bool(det < 0) with det the exact determinant']
+NOT_COVERED = ['gradients, Jacobians, divergence theorem, normalisation, lowering: calculus and array semantics are outside; this claim covers the algebraic core of the normal and the '
+               'orientation flags of the edge transforms (SimplexEdge, TensorEdge1/2, ScaledUpdim, flipped) for ndims <= 3',
+               'swapup / swapdown of the edge transforms (C11 item tables), MosaicReference / WithChildrenReference extra edges, orientation of interface opposites']
